@@ -94,7 +94,7 @@ type Config struct {
 	NoRememberStore bool     `json:"no_remember_store,omitempty"` // the application's storer does not implement authboss.RememberingServerStorer (only honoured without the remember module)
 	NoArbitraryUser bool     `json:"no_arbitrary_user,omitempty"` // the application's user type does not implement authboss.ArbitraryUser
 	PlainRegValues  bool     `json:"plain_reg_values,omitempty"`  // the application's body reader returns register values that implement UserValuer only (no ArbitraryValuer)
-	WriterWrap      string   `json:"writer_wrap,omitempty"`       // an application middleware right behind LoadClientStateMiddleware wraps the response writer (compression, metrics): "underlying" exposes it through UnderlyingResponseWriter(), "unwrap" through Unwrap() only
+	WriterWrap      string   `json:"writer_wrap,omitempty"`       // an application middleware right behind LoadClientStateMiddleware wraps the response writer (compression, metrics): "underlying" exposes it through UnderlyingResponseWriter(), "unwrap" through Unwrap() only; "controller": no wrapper, the middleware sets a write deadline through http.ResponseController
 	App2FAHook      bool     `json:"app_2fa_hook,omitempty"`      // the application hooks After(EventTwoFactorAdded) while configuring authboss (before the 2FA Setup calls) and answers the request itself (a "2FA is on now" page)
 	CustomHasher    bool     `json:"custom_hasher,omitempty"`     // Core.Hasher is the application's own (salted SHA-256, "$ssha256$salt$digest"), not bcrypt
 	StoreZoneH      int      `json:"store_zone_h,omitempty"`      // the storer hands instants back in a fixed zone this many hours off UTC (a database driver's session time zone); 0 = UTC
@@ -889,9 +889,18 @@ func (w *World) buildHandler() {
 		next := app
 		kind := w.Cfg.WriterWrap
 		app = http.HandlerFunc(func(rw http.ResponseWriter, r *http.Request) {
-			if kind == "unwrap" {
+			switch kind {
+			case "unwrap":
 				next.ServeHTTP(unwrapOnly{rw}, r)
-			} else {
+			case "controller":
+				// a per-request write deadline through the standard library's ResponseController, which walks the
+				// writers' Unwrap() methods down to the connection (the recorder has none: the error is ignored, as apps do)
+				// (on the application's own pages only; the authboss routes keep the server's default)
+				if strings.HasPrefix(r.URL.Path, "/p/") || strings.HasPrefix(r.URL.Path, "/q/") || r.URL.Path == "/open" {
+					_ = http.NewResponseController(rw).SetWriteDeadline(time.Now().Add(time.Minute))
+				}
+				next.ServeHTTP(rw, r)
+			default:
 				next.ServeHTTP(underlyingOnly{rw}, r)
 			}
 		})
@@ -1239,6 +1248,18 @@ var SortedModules = func() []string {
 var _ = abo2.FormValueOAuth2State
 
 // SMTPMessages returns the messages the shared loopback SMTP server received since this world was built.
+// SMTPEnvelopes: the accepted envelope recipients of SMTPMessages(), index by index.
+func (w *World) SMTPEnvelopes() []string {
+	if w.SMTP == nil {
+		return nil
+	}
+	all := w.SMTP.Envelopes()
+	if w.smtpBase > len(all) {
+		return nil
+	}
+	return all[w.smtpBase:]
+}
+
 func (w *World) SMTPMessages() []string {
 	if w.SMTP == nil {
 		return nil
